@@ -25,6 +25,8 @@ void prop_C14(void)
     if (lwork > 0) hx_ctx_add(lwork < P_int("need", 0) ? "user_workspace_short" : "user_workspace_ok");
     int_t info = -777;
     int t0 = count_tasks();
+    int leakcheck = (int)P_int("leakcheck", 0);      /* C17's share: out-of-memory returns must not keep anything allocated */
+    if (leakcheck) live_mark_epoch();
     if (!strcmp(api, "gssv")) {
         if (x->M->stype == 0 || 1) { sched_begin_factor(x->P); g_phase = "gssv"; LIB(vt->gssv(x->P, &x->M->A, x->perm_c, x->perm_r, &x->L, &x->U, &d.B, &info)); sched_end_factor(); }
         memcpy(d.xval, d.bval, 0);
@@ -61,6 +63,12 @@ void prop_C14(void)
         /* documented out-of-memory return */
         if (!faulty && lwork == 0) verdict_fail("C14:oom_without_fault", "info=%d > n without any injected failure", (int)info);
         feat("oom_return", 1);
+        /* C17: when the failing request lies in the storage set-up of p?gstrf (before any factor storage exists) the simple driver
+           hands nothing back, so nothing allocated by the library may survive the return */
+        if (leakcheck && !strcmp(api, "gssv") && strstr(g_last_fail_chain, "gstrf_MemInit") && live_count() != 0) {
+            char dsc[700]; live_describe(dsc, sizeof dsc, 5);
+            verdict_fail("C17:leak_after_out_of_memory_return", "info=%d > n (failed request in %s): %ld library blocks (%ld bytes) are still allocated after the return: %s", (int)info, g_last_fail_chain, live_count(), live_bytes(), dsc); }
+        if (leakcheck) feat("oom_leak_checked", strstr(g_last_fail_chain, "gstrf_MemInit") ? 1 : 0);
         verdict_pass();
     }
     if (info > 0 && info <= n) {
